@@ -179,3 +179,93 @@ Example update_nonvacuous :
   option_map placement_flat (mt_place true 290 270 (mkTup 2 2 1 100 150 0 0 156 106))
   = Some [2; 2; 1; 140; 150; 0; 100; 0; 1; 150; 156; 100].
 Proof. vm_compute. reflexivity. Qed.
+
+(* ======================================================================================
+   Composition with C10 (locked tile update): the atomic-update premise of
+   [schedule_independent] / [tiles_eq_mosaic] discharged.  Proofs in Proofs/GlueMultiTan.v.
+   Vocabulary:
+   [table]             256 x 256 tables of pixels — the tile type at which Model/Lock.v is
+                       instantiated ([tab] / [untab] convert from / to [pixels]; [tdflt]
+                       = all undefined = what a missing file reads as; [tmasked] =
+                       completely_masked on tables, for which C10's hypothesis "a
+                       completely masked tile is the default tile" holds);
+   [targets n x y o]   op o updates tile (n, x, y);  [ops_at] the ops that do, in order;
+   [fs_at ops n x y]   their update functions ([update_buffer] of C09 on tables): the
+                       updaters of the tile's instance of Lock.v;
+   [pick os idxs]      the elements of os at the indices idxs;
+   [gact]/[gstep]/[grun]  the product of independent per-tile instances of Lock.v: an
+                       action names a tile and a protocol step of one updater of it;
+   [ginit ops s0]      every updater idle, files as in s0;  [par_store g] the files of g.
+   A schedule is an arbitrary list of actions (disabled ones are no-ops); which worker
+   runs which update only restricts the schedules.
+
+   Modelling statement added by the product (in neither model): updates of different
+   tiles do not interact (separate tile and lock files, pyramid.py:430-432) and an
+   op's image is fixed before its update starts.
+   ====================================================================================== *)
+From Coq Require Import Arith Permutation.
+From Toasty Require Import Model.Lock Proofs.LockP Proofs.GlueMultiTan.
+
+(* one tile, any ops, any initial files, every complete schedule of update_image's
+   protocol: lock free, and the tile content is what C09's atomic [run_ops] leaves for
+   the ops of the tile taken in lock-acquisition order — each exactly once *)
+Theorem tile_linearizable :
+  forall (V : Type) (ops : list (@op V)) (n x y : Z) (s0 : @store V) (l : list lact),
+  let fs := fs_at ops n x y in
+  let s := lrun tdflt tmasked fs (linit fs (file_of (s0 n x y))) l in
+  all_done s = true ->
+  lock s = None /\
+  Permutation (pick (ops_at ops n x y) (rev (order s))) (ops_at ops n x y) /\
+  content tdflt (file s) =
+  Some (tab (read_image_masked (run_ops (pick (ops_at ops n x y) (rev (order s))) s0) n x y)).
+Proof. exact tile_linearizable_thm. Qed.
+Print Assumptions tile_linearizable.
+
+(* a schedule of the product acts on each tile as a schedule of Model/Lock.v *)
+Theorem product_projection :
+  forall (V : Type) (ops : list (@op V)) (l : list gact) (g : @gstate V) n x y,
+  grun ops g l n x y = lrun tdflt tmasked (fs_at ops n x y) (g n x y) (proj n x y l).
+Proof. exact product_projection_thm. Qed.
+Print Assumptions product_projection.
+
+(* the parallel tile phase, every schedule in which all updaters finish: no lock is
+   held and the tiles show the mosaic of the pasted inputs = what the serial phase shows *)
+Theorem multitan_parallel_eq_serial :
+  forall (V : Type) W H t inv (ins : list (@input V)) (gl : list gact),
+  study_tiling W H = Some t -> (forall i, In i ins -> valid_input t i) -> overlaps_agree ins ->
+  let g := grun (the_ops inv ins) (ginit (the_ops inv ins) empty_store) gl in
+  (forall n x y, all_done (g n x y) = true) ->
+  (forall n x y, lock (g n x y) = None) /\
+  (forall R C, mosaic_display t inv (par_store g) R C = expected_mosaic t (pasted ins) R C) /\
+  (exists s_ser, tile_serial inv ins = Some s_ser /\
+     forall R C, mosaic_display t inv (par_store g) R C = mosaic_display t inv s_ser R C).
+Proof. exact multitan_parallel_eq_serial_thm. Qed.
+Print Assumptions multitan_parallel_eq_serial.
+
+(* ... it IS an atomic run: one arrangement seq of exactly the updates (each once) such
+   that on every tile the parallel run leaves the content of [run_ops seq] and the same
+   file / no file; and these are the tile files of the pasted mosaic *)
+Theorem multitan_parallel_atomic :
+  forall (V : Type) W H t inv (ins : list (@input V)) (gl : list gact),
+  study_tiling W H = Some t -> (forall i, In i ins -> valid_input t i) -> overlaps_agree ins ->
+  let g := grun (the_ops inv ins) (ginit (the_ops inv ins) empty_store) gl in
+  (forall n x y, all_done (g n x y) = true) ->
+  exists seq s_ref,
+    Permutation seq (the_ops inv ins) /\
+    tile_image true t inv (pasted ins) = Some s_ref /\
+    forall n x y,
+      content tdflt (file (g n x y)) = Some (tab (read_image_masked (run_ops seq empty_store) n x y)) /\
+      (par_store g n x y = None <-> run_ops seq empty_store n x y = None) /\
+      (par_store g n x y = None <-> s_ref n x y = None) /\
+      (forall r c, 0 <= r < 256 -> 0 <= c < 256 ->
+         read_image_masked (par_store g) n x y r c = read_image_masked s_ref n x y r c).
+Proof. exact multitan_parallel_atomic_thm. Qed.
+Print Assumptions multitan_parallel_atomic.
+
+(* the hypothesis "all updaters done" is satisfiable for every set of updates and every
+   initial store: some schedule of the product completes (C10 lock_no_deadlock, lock_measure) *)
+Theorem product_completes :
+  forall (V : Type) (ops : list (@op V)) (s0 : @store V),
+  exists gl, forall n x y, all_done (grun ops (ginit ops s0) gl n x y) = true.
+Proof. exact product_completes_thm. Qed.
+Print Assumptions product_completes.
